@@ -52,7 +52,7 @@ class C06:
             "offending token; reject => PARSE_ERROR, >= 1 diagnostic, last diagnostic names the token's file and the line on "
             "which it ends, none beyond; accept (no deprecated options) => zero diagnostics. Non-trivial = offending token on "
             "line >= 2 with a comment, multi-line string, continuation or include before it; distinct = distinct texts")
-    assumptions = ["message texts are never compared", "newlines inside ${...} bodies are not generated (grey)",
+    assumptions = ["message texts are never compared",
                    "file name for a buffer is '[buf]', for cfg_parse the path handed in, for includes the name as resolved"]
 
     def judge(self, schema, flags, sub, res, main_name):
@@ -223,7 +223,7 @@ class C06:
                     subs.append({"main": main, "files": files, "cbfail": k})
             idx = [i for i, t in enumerate(main) if t[0] in ("s", "p")]
             for i in idx:
-                kind = draw(st.sampled_from(["wrong", "del", "cut", "badesc", "unterm", "badval", "wrong", "cut", "pathname"]))
+                kind = draw(st.sampled_from(["wrong", "del", "cut", "badesc", "unterm", "badval", "wrong", "cut", "pathname", "envnl"]))
                 t = main[i]
                 if kind == "pathname":
                     # a name (or value) written with the characters of the path syntax
@@ -232,6 +232,10 @@ class C06:
                     form = draw(st.sampled_from(["%s|", "%s|%s", "|%s", "%s||%s", "%s||", "%s=1|%s", "%s=|%s", "%s='t'|%s", "%s|%s|", "%s=", "=%s"]))
                     name = form % ((x, y)[:form.count("%s")])
                     mut = main[:i] + [["s", name, "dq" if ("=" in name or "'" in name) else "bare"]] + main[i + 1:]
+                elif kind == "envnl":
+                    # a value written as a substitution whose default spans lines (every newline counts)
+                    v = draw(st.sampled_from(["${C06_UNSET:-a\nb}", "\"x${C06_UNSET:-\n\n}y\"", "${C06_UNSET:-\n}"]))
+                    mut = main[:i] + [["raw", v if t[0] == "s" else gen_text.render([t]) + " " + v]] + main[i + 1:]
                 elif kind == "wrong":
                     rep = ["p", "}"] if t[0] == "s" else ["s", "zz", "bare"]
                     mut = main[:i] + [rep] + main[i + 1:]
